@@ -216,6 +216,75 @@ theorem c10_valid_two_fields_orig_counterexample : ¬ c10_valid_two_fields_orig_
 example : inRange ([0, 1, 2, 3] : List ℤ) (-1) = false ∧ lookup ([0, 1, 2, 3] : List ℤ) (-1) = some 2 := by
   decide
 
+/-! ## the histogram PDF object and the arrays of its caller -/
+
+section
+variable {K : Type} [Field K] [LinearOrder K] [IsStrictOrderedRing K]
+
+theorem C10.pyIndex_lt (n : Nat) (i : Int) (r : Nat) (h : pyIndex n i = some r) : r < n := by
+  unfold pyIndex at h
+  split_ifs at h with h1 h2
+  · simp only [Option.some.injEq] at h; omega
+  · simp only [Option.some.injEq] at h; omega
+
+theorem C10.lookup_lt (edges : List K) (x : K) (i : Nat) (h : lookup edges x = some i) :
+    i < edges.length - 1 := by
+  unfold lookup at h
+  exact C10.pyIndex_lt _ _ _ h
+
+/-- a freshly constructed object evaluates to `energyPd` of the construction-time inputs -/
+theorem C10.eGet_eNew (k eE eD : List K) (evs : List (Ev K)) (x y : K) :
+    eGet (eNew k eE eD evs).obj x y = energyPd k eE eD evs x y := by
+  unfold eGet eNew energyPd
+  simp only
+  cases hi : lookup eE x with
+  | none => rfl
+  | some i =>
+    cases hj : lookup eD y with
+    | none => rfl
+    | some j =>
+      have hjl := C10.lookup_lt eD y j hj
+      simp [hjl]
+
+/-- **the histogram PDF does not depend on what the caller does to the arrays it handed in**: for every
+sequence of in-place overwrites of the caller's edge arrays, `get_pd` and validity checks, the
+object answers as at construction time — `energyPd` / `inRange` of the original edges. -/
+theorem c10_energy_object_independent_of_caller (k eE eD : List K) (evs : List (Ev K)) (ops : List (EOp K)) :
+    eRun false (eNew k eE eD evs) ops = ops.map (fun op => match op with
+      | .callerWrites _ _ => EOut.unit
+      | .get x y => EOut.pd (energyPd k eE eD evs x y)
+      | .valid x y => EOut.ok (inRange eE x && inRange eD y)) := by
+  have hgen : ∀ (ops : List (EOp K)) (w : EWorld K), w.obj = (eNew k eE eD evs).obj →
+      eRun false w ops = ops.map (fun op => match op with
+        | .callerWrites _ _ => EOut.unit
+        | .get x y => EOut.pd (energyPd k eE eD evs x y)
+        | .valid x y => EOut.ok (inRange eE x && inRange eD y)) := by
+    intro ops
+    induction ops with
+    | nil => intro w _; rfl
+    | cons op rest ih =>
+      intro w hw
+      cases op with
+      | callerWrites a b =>
+        simp only [eRun, eStep, List.map_cons]
+        rw [ih _ (by simpa using hw)]
+      | get x y =>
+        simp only [eRun, eStep, List.map_cons]
+        rw [ih w hw, hw, C10.eGet_eNew]
+      | valid x y =>
+        simp only [eRun, eStep, List.map_cons]
+        rw [ih w hw, hw]
+        rfl
+  exact hgen ops _ rfl
+end
+
+/-- a binning that keeps the caller's array: after `edges += 1` by the caller the event `1.5` is no
+longer looked up in its bin (and `0.5`, outside the declared range, is accepted) -/
+theorem c10_energy_object_shared_counterexample :
+    eRun true (eNew [] ([1, 2, 3] : List ℤ) [0, 1] [⟨1, 0, 1, 1⟩]) [.callerWrites [2, 3, 4] [0, 1], .valid 1 0] ≠
+    eRun false (eNew [] ([1, 2, 3] : List ℤ) [0, 1] [⟨1, 0, 1, 1⟩]) [.callerWrites [2, 3, 4] [0, 1], .valid 1 0] := by
+  decide
+
 /-! ## spatial background histogram and the 1/2π factor (ℝ) -/
 
 namespace C10
